@@ -191,15 +191,19 @@ def model(hd, pd_, tracers, params, rsd, enable_ranks):
     for i in range(H):
         mk = central_markers(hd, tracers, i)
         cs = codes_for(float(hd['hrandoms'][i]), mk)
+        raw = set(cs)
         cs = {c if (c == 0 or present[c - 1]) else 0 for c in cs}  # a zero-width slice of a disabled tracer holds no galaxy
-        hcodes.append(cs)
-        for c in sorted(cs):
+        # for the conformity lookup of this host's satellites every admissible keep code is allowed, including the code of a
+        # disabled tracer's zero-width slice (reachable only by a random exactly on that edge, e.g. 0.0): a tie, two-sided
+        hcodes.append(cs | raw)
+        cs_c = cs
+        for c in sorted(cs_c):
             if c == 0:
                 continue
             T = TRACERS[c - 1]
             v = hd['hvel'][i] + tracers[T]['alpha_c'] * hd['hveldev'][i]
             p = _rsd(hd['hpos'][i], v, params, rsd)
-            cent[T].append((i, len(cs) == 1, np.concatenate([p, v, [hd['hmass'][i]]]), int(hd['hid'][i])))
+            cent[T].append((i, len(cs_c) == 1, np.concatenate([p, v, [hd['hmass'][i]]]), int(hd['hid'][i])))
     for j in range(P):
         host = int(pd_['pinds'][j])
         cs = set()
